@@ -33,7 +33,7 @@ class WorldC17(World):
     PROBES = ('insert-above-last', 'insert-equal-existing', 'insert-equal-last', 'insert-between',
               'pop-last', 'pop-middle', 'pop0-refused', 'shared-lists-edit',
               'eval-on-breakpoint', 'eval-beyond-last', 'reload-after-edit', 'single-breakpoint-effect',
-              'reload-via-hook')
+              'reload-via-hook', 'two-edits-between-evaluations')
     REAL = ('pmutt.mixture.cov.PiecewiseCovEffect (all methods)', 'pmutt.io.json encoder/object hook',
             'json module')
     SIMULATED = ('1-3 clients issuing calls over a shared pool of effects (seeded scheduler)',
@@ -54,6 +54,9 @@ class WorldC17(World):
             'negatives': False,   # breakpoints below 0 are outside the quantifier ([0, 1]); never generated
             'grid': rng.choice([0, 0, 10, 4]),    # 0: continuous values, n: multiples of 1/n (ties)
             'slope_scale': rng.choice([1.0, 10.0, 100.0]),
+            # how often the energies of all effects are evaluated between edits (the structural invariants, which read
+            # the lists only, still run after every step): an evaluation is itself an event of the history
+            'eval_every': rng.choice([1, 1, 2, 3, 5]),
         }
 
     def n_steps(self, rng, swarm):
@@ -276,10 +279,23 @@ class WorldC17(World):
         else:
             raise Skip()
         # invariants on every effect after every step
+        every = int(self.ctx.swarm.get('eval_every', 1))
+        if name in ('insert', 'pop') and out != 'refused':
+            self._edits_since_eval = getattr(self, '_edits_since_eval', 0) + 1
+        if every <= 1 or self.ctx.step % every == 0 or name == 'eval':
+            if getattr(self, '_edits_since_eval', 0) >= 2:
+                self.ctx.probe('two-edits-between-evaluations')
+            self._edits_since_eval = 0
+        for k in sorted(self.eff):
+            self._check_structure(k)
+            if every <= 1 or self.ctx.step % every == 0:
+                self._check_function(k, self.eff[k], 350.0, None, ())
+        return out
+
+    def finish(self):
         for k in sorted(self.eff):
             self._check_structure(k)
             self._check_function(k, self.eff[k], 350.0, None, ())
-        return out
 
     # ------------------------------------------------------------------ oracle
     def _follow_sharers(self, k):
